@@ -148,6 +148,17 @@ def gen_conn_cases(ctx):
         spont = pkt_chunks(rng, uid, rng.choice([1, 2, 3, 4]))
         prefix = [a for a in U.gen_prefix(rng, rng.choice([10, 30, 60, 100]), virt=False) if a != W]
         cases.append(conn_case(cfgs, script, spont, False, prefix=prefix, kind="sync-trans"))
+    # long locked phases: many packets received while locked, then unlock() (the model's holding queue
+    # is unbounded; a bounded one makes the I/O thread block in put() with the internal lock held)
+    for n_held in ((129, 200, 520, 1000) if ctx.thorough else (129, 200)):
+        spn = [[[0, 10 * c + i + 1, True] for i in range(10) if 10 * c + i < n_held] for c in range((n_held + 9) // 10)]
+        cases.append(conn_case({"conn": True, "virt": False, "tmo": 3}, [["unlock"]], spn, True, policy="np", preempt=[],
+                               kind="lock-long", order=PRODUCER_FIRST, cap=60 * n_held + 500))
+    for n_held in ((300,) if ctx.thorough else (140,)):
+        spn = [[[0, i + 1, True]] for i in range(n_held)]
+        prefix = [a for a in U.gen_prefix(rng, 12 * n_held, virt=False) if a not in (W, A)]
+        cases.append(conn_case({"conn": True, "virt": False, "tmo": 3}, [["lock"], ["unlock"], ["lock"], ["unlock"]], spn, False,
+                               prefix=[A, A] + prefix, kind="lock-long", cap=60 * n_held + 500))
     # unlock() running while packets keep arriving: three packets, the application cuts in after k
     # producer steps and the I/O thread cuts back in j steps later (between two dispatches of unlock)
     cfg3 = {"conn": True, "virt": False, "tmo": 3}
@@ -256,6 +267,16 @@ def oracle_conn(case, res):
     has_sync = any(op[0] == "sync" for op in script)
     has_cmd = any(op[0] == "cmd" for op in script)
     quiet = conn_quiet(case, res)
+    # liveness: lock() / unlock() / enable_synchronous() always return; nobody blocks for ever
+    if not res["capped"] and not obs["adone"]:
+        pend = info["pending"].get("A", "")
+        if not pend.endswith(".get"):           # (an untimed wait_packet may legitimately wait for ever)
+            out.append(("the application thread is blocked for ever at `%s` (I/O thread at `%s`): unlock()/lock() never returns, held packets are never dispatched"
+                        % (pend, info["pending"].get("C", "")), "every operation returns",
+                        {"held": len(obs["locked_q"]), "dispatched": len(obs["dispatched"]), "received": len(obs["delivered"])}))
+    if not res["capped"] and info["pending"].get("C", "").endswith(".put"):
+        out.append(("the connector I/O thread is blocked for ever in a queue put() (`%s`)" % info["pending"].get("C"), "queues never block their producer",
+                    {"held": len(obs["locked_q"]), "queue_bounds": info.get("queue_bounds")}))
     if obs.get("on_packets") is not None and obs["on_packets"] != [m[:2] + [True] for m in obs["dispatched"] if m[0] != 13]:
         out.append(("on_packet calls differ from the packets handed to the dispatch routine", obs["dispatched"], obs["on_packets"]))
     # dispatch order / exactly once (lock mode): holds at every state when lock() is not called twice
@@ -402,6 +423,7 @@ def run(ctx):
         "bridge: both directions; held messages are packet-type (ordinary PDUs, and class-13 messages whose to_packet() is None), pending / emitted messages of any kind; the packet dispatch routine Connector.__process_pkt_message is observed (and made a yield point) by an override in the harness connector subclass",
     ]
     ctx.assumptions = [
+        "every queue of Device / Connector is unbounded (checked each run on constructed objects: structural obligation)",
         "lock() is not called on a connector that is already locked (it discards what is held, by design)",
         "synchronous mode: the application enables packet mode and then only calls wait_packet (disabling the mode discards what is queued, by design); packets only",
         "one application thread; one connector I/O thread per connector; the device stays open",
@@ -414,6 +436,19 @@ def run(ctx):
     ctx.log("cases:", len(cases), "(bridge: %d)" % sum(1 for c in cases if c.get("kind") == "bridge"))
     results = U.run_driver([strip(c) for c in cases], script="C05.py", batch=30 if ctx.thorough else 14)
     ctx.log("implementation ran %d schedules" % len(results))
+
+    # ---- structural obligation: the models take every queue as unbounded ----------------------------
+    bounds = {}
+    for r in results:
+        if "error" not in r and r["info"].get("queue_bounds"):
+            bounds = r["info"]["queue_bounds"]
+            break
+    bounded = {k: v for k, v in bounds.items() if v}
+    ctx.cov["obligations"] += 1
+    if not bounded and bounds:
+        ctx.cov["discharged"] += 1
+    ctx.cov["queue_bounds"] = bounds
+    ctx.log("structural obligation (unbounded queues):", "ok" if not bounded and bounds else "BROKEN %r" % (bounded or "not observed"))
 
     # ---- oracle ---------------------------------------------------------------------------------
     nviol = 0
@@ -439,7 +474,7 @@ def run(ctx):
             t_br.append(c_bcase(case, res)); i_br.append(i)
         else:
             t = U.c_case(case, res)
-            if t is not None and len(t) < 60000:
+            if t is not None and len(t) < 200000:
                 t_conn.append(t); i_conn.append(i)
     bad_c, logs_c = C.run_cases(PID, "conn", PRE, "case", t_conn, "check_case", shard=60)
     bad_b, logs_b = C.run_cases(PID, "bridge", PRE, "bcase", t_br, "bcheck_case", shard=80)
@@ -488,6 +523,9 @@ def run(ctx):
 
     # ---- verdict --------------------------------------------------------------------------------------
     errs = [r for r in results if "error" in r]
+    if (bounded or not bounds) and not ctx.violations:
+        ctx.broken_obligation("model hypothesis broken: the queues of Device / Connector are taken as unbounded by the models, observed maxsize %r"
+                              % (bounded or bounds), json.dumps(bounds), None)
     if (bad_c or bad_b or not proofs_ok or errs) and not ctx.violations:
         first = None
         if bad_c:
